@@ -829,6 +829,30 @@ func Run1(t *testing.T, c Case) (res Result) {
 				err := n.M.Remove("db")
 				return &oracle.Image{PageSize: e.c.PageSize}, err
 			})
+		case "H12c-recreate-after-drop":
+			// The database was dropped (the log ends with the tombstone); the application creates it again and LiteFS dies
+			// inside that first transaction. Variant 1: the transaction is larger than the page cache, so pages other
+			// than page 1 (which stays pinned) reach the still empty file first.
+			e.single(t, false, func(n *lab.Node, a *pager.Conn, img *oracle.Image) *oracle.Image {
+				a.Close()
+				if err := n.M.Remove("db"); err != nil {
+					e.res.Harness = "prep drop: " + err.Error()
+					return nil
+				}
+				return &oracle.Image{PageSize: e.c.PageSize}
+			}, func(n *lab.Node, col *collector, a *pager.Conn, img *oracle.Image) (*oracle.Image, error) {
+				b := pager.NewConn(n.M, "db", 5, e.c.PageSize)
+				defer b.Close()
+				tx := pager.RTx{Create: true, NewSize: 3, Final: "DELETE", Outcome: "commit"}
+				if c.Variant == 1 {
+					tx = pager.RTx{Create: true, NewSize: 5, SpillNew: 2, Final: "DELETE", Outcome: "commit"}
+				}
+				r := b.RunRTx(tx, nil)
+				if r.Err != nil || !r.Committed {
+					return nil, fmt.Errorf("%v at %s", r.Err, r.ErrStep)
+				}
+				return r.Intended, nil
+			})
 		case "H14-import":
 			e.single(t, c.Variant%2 == 1, nil, func(n *lab.Node, col *collector, a *pager.Conn, img *oracle.Image) (*oracle.Image, error) {
 				a.Close()
@@ -989,7 +1013,7 @@ func RunAll(run *vlib.Run, only func(h string) bool) map[string]any {
 	}{
 		{"H1-first-tx", 6}, {"H2-grow", 3}, {"H3-shrink", 3}, {"H4-multi-segment", 3}, {"H4b-segment-ends-on-sector-boundary", 1}, {"H5-rollback-after-spill", 3},
 		{"H6-wal-fresh", 3}, {"H7-wal-after-restart", 2}, {"H7b-wal-second-tx", 2}, {"H7c-wal-unwritten-tail", 2}, {"H8-sqlite-checkpoint", 4}, {"H8b-wal-tx-after-checkpoint", 2}, {"H9-litefs-recover", 2},
-		{"H12-drop", 6}, {"H16-leave-wal", 3}, {"H14-import", 4}, {"H10-replica-incremental", 2}, {"H10w-replica-incremental-wal", 2}, {"H11-replica-snapshot", 2}, {"H11b-replica-resnapshot", 2}, {"H11c-replica-fork-resnapshot", 6}, {"H15-restore-from-backup", 2}, {"H13-replica-tombstone", 2},
+		{"H12-drop", 6}, {"H12c-recreate-after-drop", 2}, {"H16-leave-wal", 3}, {"H14-import", 4}, {"H10-replica-incremental", 2}, {"H10w-replica-incremental-wal", 2}, {"H11-replica-snapshot", 2}, {"H11b-replica-resnapshot", 2}, {"H11c-replica-fork-resnapshot", 6}, {"H15-restore-from-backup", 2}, {"H13-replica-tombstone", 2},
 	}
 	type geo struct {
 		ps    int
